@@ -225,6 +225,33 @@ def eval_group(env, group, tier):
                     want = sorted(r_ for r_ in plain.rows() if os.path.isfile(os.path.join(root, r_)) or 'is_file' not in w and 'is_dir' not in w)
                     emit(['classcol-back', q], plain.rc == 0 and o.rc == 0 and not o.err and sorted(o.rows()) == want, 'class-column-depends-on-the-archive-search',
                          dict(o.brief(), query=q, expected=want), layer='classcol')
+            # an archive that was packed one level up holds members named like the paths of files met later (backup.zip made by `zip -r proj/backup.zip proj`)
+            import zipfile as _zf
+            import io as _io2
+            holder2 = env.newdir('c19p')
+            try:
+                inner = zbytes(MEMBERS[:2])
+                b2 = _io2.BytesIO()
+                with _zf.ZipFile(b2, 'w') as z2:
+                    for nm, data_ in (('proj/lib/app.jar', inner), ('proj/lib/', b''), ('proj/readme', b'r'), ('proj/web.war', inner), ('proj/x.tar.gz', b'g'), ('./proj/lib/app.jar', inner)):
+                        z2.writestr(_zf.ZipInfo(nm, (2020, 1, 2, 3, 4, 6)), data_)
+                core.materialise(holder2, {'proj': D({'backup.zip': F(data=b2.getvalue()), 'readme': F(1), 'web.war': F(data=inner), 'x.tar.gz': F(1), 'lib': D({'app.jar': F(data=inner), 'app.ear': F(data=inner)})})})
+                ref = env.run(['path from proj archives into list'], cwd=holder2)
+                for mode in ('', ' dfs'):
+                    # (conditions that are true of every row)
+                    for w, keep in (('is_archive = false or is_archive = true', None), ('is_archive = true or is_archive = false', None), ('is_archive = false or size ge 0', None),
+                                    ('is_archive != true or is_dir = false or is_dir = true', None), ('size ge 0 and (is_archive = true or size ge 0)', None)):
+                        for frm, cwd2 in (('proj', holder2), ('.', os.path.join(holder2, 'proj')), ('./proj', holder2)):
+                            q = 'path from %s archives%s where %s' % (frm, mode, w)
+                            o = env.run([q + ' into list'], cwd=cwd2)
+                            o_all = env.run(['path from %s archives%s into list' % (frm, mode)], cwd=cwd2)
+                            # members of the later archives (lib/app.jar, lib/app.ear, web.war) are there whatever the query asks about is_archive
+                            want = sorted(r_ for r_ in o_all.rows() if r_.startswith('[') and 'backup.zip' not in r_)
+                            got = sorted(r_ for r_ in o.rows() if r_.startswith('[') and 'backup.zip' not in r_)
+                            emit(['classcol-packed-one-level-up', q], o.rc == 0 and o_all.rc == 0 and len(want) == 6 and got == want,
+                                 'members-depend-on-a-class-column', dict(o.brief(), query=q, missing=sorted(set(want) - set(got))[:6], n_expected=len(want)), layer='classcol')
+            finally:
+                env.rmtree(holder2)
         elif kind == 'names':
             # one archive under several names (symbolic links, hard links; followed or not): its members are listed under every name that is searched
             z = zbytes(MEMBERS[:2])
